@@ -112,3 +112,10 @@ META["C02"] = {
     "note": "The wall-clock half ('within a short bounded time') is not applicable: time is replaced by poll and instruction counts. Known finding (recorded): script functions converted to Go func types run under context.Background().",
     "technique": "symbolic execution of go/ssa (bounded exhaustive exploration) with a poll-counting context and channel model, unwinding assertions, native replay",
 }
+
+META["C16"] = {
+    "text": "The interpreter's channel code (make(chan), send/receive expressions with element conversion, the two-value receive statement, for-in over a channel, close with panic capture, go with argument evaluation) is executed on the engine's model of Go's channel semantics: FIFO and conversion with symbolic values, closed/drained behaviour, errors instead of crashes for send-on-closed and double close; producer -> [relay ->] consumer pipelines are explored under every schedule at channel-operation granularity within a context-switch bound and must deliver every item once, in order, and terminate.",
+    "design_ref": "DESIGN.md §5 C16",
+    "note": "'All schedules the runtime produces with varying GOMAXPROCS' is not applicable (runtime not encoded); schedules are explored on the channel model. Payload equalities are solver-decided; schedules are enumerated by forking.",
+    "technique": "symbolic execution of go/ssa with a channel/goroutine model, bounded schedule exploration, unwinding assertions, native replay",
+}
